@@ -4,6 +4,7 @@ import (
 	"errors"
 	"fmt"
 	"runtime"
+	"strings"
 	"sync/atomic"
 	"time"
 
@@ -94,18 +95,18 @@ func taskRunnerCase(c *kit.Case) {
 	}
 	ok := m.await(l.done(), "the submitters")
 	if ok {
-		ok = trWait(m, tr, "Wait after the submitters returned")
+		// quiescence of the holders: every accepted task body has returned (or panicked)
+		if ok = waitUntil(func() bool { return m.released.Load() == accepted.Load() }, caseWatchdog); !ok {
+			c.Inconclusive("taskrunner: accepted tasks did not all run")
+		}
 	}
 	if ok {
 		c.Obs("taskrunner_tasks_accepted", accepted.Load())
-		if m.released.Load() != accepted.Load() {
-			c.Obs("taskrunner_accepted_but_not_finished_at_wait", accepted.Load()-m.released.Load())
-		}
 		phase := "after-normal-exits"
 		if m.panics.Load() > 0 {
 			phase = "after-task-panics"
 		}
-		trProbe(m, tr, p.N, phase)
+		trProbe(m, tr, p.N, phase, trWait(m, tr))
 	}
 	m.finish(p.G)
 	if c.Index < 2 {
@@ -113,38 +114,64 @@ func taskRunnerCase(c *kit.Case) {
 	}
 }
 
-func trWait(m *mon, tr *threading.TaskRunner, what string) bool {
+// trWait calls Wait(). If it does not return although every task body has ended, it
+// keeps waiting as long as a task goroutine of the runner still exists (it may be
+// about to release its slot); once none exists (consecutive dumps) nothing can
+// release a slot or complete the wait any more, and false is returned: the caller
+// then decides about the capacity with non-blocking calls only.
+func trWait(m *mon, tr *threading.TaskRunner) bool {
 	done := make(chan struct{})
 	go func() { tr.Wait(); close(done) }()
 	select {
 	case <-done:
 		return true
-	case <-time.After(caseWatchdog):
-		m.c.Inconclusive("taskrunner: " + what + " did not return")
-		return false
+	case <-time.After(stuckProbeAt):
 	}
+	t0 := time.Now()
+	none := 0
+	for time.Since(t0) < caseWatchdog {
+		select {
+		case <-done:
+			return true
+		case <-time.After(stuckEvery):
+		}
+		if strings.Contains(stacks(), "threading.(*TaskRunner).Schedule") {
+			none = 0
+		} else if none++; none >= stuckSamples {
+			m.c.Obs("taskrunner_wait_never_returned_with_no_task_goroutine_left", 1)
+			return false
+		}
+	}
+	m.c.Inconclusive("taskrunner: Wait did not return and task goroutines are still around")
+	return false
 }
 
-// trProbe: after Wait() returned nothing runs. Exactly n ScheduleImmediately must
-// be accepted (their bodies are held by the harness), the (n+1)-th must be refused
-// with ErrTaskRunnerBusy, and a blocking Schedule must not start its task before a
-// slot is released.
-func trProbe(m *mon, tr *threading.TaskRunner, n int, phase string) {
+// trProbe: every task has ended and (waited) Wait() returned. Exactly n
+// ScheduleImmediately must be accepted (their bodies are held by the harness), the
+// (n+1)-th must be refused with ErrTaskRunnerBusy, and a blocking Schedule must not
+// start its task before a slot is released. If Wait() can never return (!waited:
+// no task goroutine is left) only the non-blocking part runs.
+func trProbe(m *mon, tr *threading.TaskRunner, n int, phase string, waited bool) {
 	m.c.Obs("taskrunner_quiescence_probes", 1)
 	release := make(chan struct{})
-	var entered atomic.Int64
+	var entered, left atomic.Int64
 	got := 0
 	for i := 0; i < n; i++ {
 		who := fmt.Sprintf("probe%d", i)
 		err := tr.ScheduleImmediately(func() {
+			defer left.Add(1)
 			m.enter(nil, who)
 			defer m.exit(nil, who)
 			entered.Add(1)
 			<-release
 		})
 		if err != nil {
-			m.viol("leak/"+phase, fmt.Sprintf("after Wait() returned, ScheduleImmediately #%d of %d was refused (%v): capacity was lost", i+1, n, err),
-				map[string]any{"accepted": got})
+			what := "after Wait() returned"
+			if !waited {
+				what = "with every task ended, no task goroutine left (and Wait() never returning)"
+			}
+			m.viol("leak/"+phase, fmt.Sprintf("%s, ScheduleImmediately #%d of %d was refused (%v): capacity was lost", what, i+1, n, err),
+				map[string]any{"accepted": got, "wait_returned": waited})
 			break
 		}
 		got++
@@ -168,6 +195,8 @@ func trProbe(m *mon, tr *threading.TaskRunner, n int, phase string) {
 		} else {
 			m.c.Obs("taskrunner_probe_refused_beyond_cap", 1)
 		}
+	}
+	if got == n && waited {
 		go func() {
 			tr.Schedule(func() {
 				extraRan.Store(true)
@@ -194,7 +223,19 @@ func trProbe(m *mon, tr *threading.TaskRunner, n int, phase string) {
 		m.c.Inconclusive("taskrunner probe: the blocking Schedule did not return after the slots were released")
 		return
 	}
-	trWait(m, tr, "Wait after the probe")
+	if !waitUntil(func() bool { return left.Load() == int64(got) }, caseWatchdog) {
+		m.c.Inconclusive("taskrunner probe: held tasks did not end after their release")
+		return
+	}
+	if waited {
+		done := make(chan struct{})
+		go func() { tr.Wait(); close(done) }()
+		select {
+		case <-done:
+		case <-time.After(caseWatchdog):
+			m.c.Inconclusive("taskrunner: Wait after the probe did not return")
+		}
+	}
 }
 
 // workerGroupCase: NewWorkerGroup(job, n).Start() runs the job on n goroutines;
